@@ -2,6 +2,7 @@
 stdin: JSON {"exprs": [expr...], "valuations": [[ints]...]}; expr = ["in", mode, base, i] | ["lit", v] | ["bin", op, a, b] | ["if", c, a, b]
 stdout: JSON {"table": [...], "exprs": [{"real": cls|null, "abs": [cls, value]|{"exc":..}}]}"""
 import json
+import operator
 import sys
 
 import nada_dsl as real
@@ -62,6 +63,32 @@ def ev(e, mk, val):
     raise ValueError(k)
 
 
+IOPS = {"OAdd": operator.iadd, "OSub": operator.isub, "OMul": operator.imul}
+
+
+def ev_shared(e, mk, val, memo):
+    """the same expression written the way programs are: one object per input however often it is used, and
+    +, -, * through augmented assignment (t = a; t += b), which must not change a"""
+    k = e[0]
+    if k == "in":
+        key = (e[1], e[2], e[3])
+        if key not in memo:
+            memo[key] = mk(e[1], e[2], val[e[3]] if val is not None else None)
+        return memo[key]
+    if k == "lit":
+        return mk("Const", "Int", e[1]) if val is not None else real.Integer(e[1])
+    if k == "bin":
+        a, b = ev_shared(e[2], mk, val, memo), ev_shared(e[3], mk, val, memo)
+        if e[1] in IOPS:
+            t = a
+            t = IOPS[e[1]](t, b)
+            return t
+        return OPS[e[1]](a, b)
+    if k == "if":
+        return ev_shared(e[1], mk, val, memo).if_else(ev_shared(e[2], mk, val, memo), ev_shared(e[3], mk, val, memo))
+    raise ValueError(k)
+
+
 def main():
     spec = json.load(sys.stdin)
     ab.Abstract.initialize()      # as nada_dsl.audit.abstract.signature() does before running nada_main
@@ -102,6 +129,10 @@ def main():
         return go(e)
     for k, (e, val) in enumerate(zip(spec["exprs"], spec["valuations"])):
         via_context = (k % 2 == 0)
+        if k % 3 == 2:
+            out.append({"real": outcome_real(lambda: ev_shared(e, lambda m, b, v: real_val(m, b), None, {})),
+                        "abs": outcome_abs(lambda: ev_shared(e, abs_val, val, {}))})
+            continue
         out.append({"real": outcome_real(lambda: ev(e, lambda m, b, v: real_val(m, b), None)),
                     "abs": outcome_abs((lambda: abs_from_context(e, val)) if via_context else (lambda: ev(e, abs_val, val)))})
     ab.Abstract.initialize()
